@@ -423,13 +423,15 @@ var typeToSize = [256]int8{
 	I64:    8,
 }
 
-func skipstr(p unsafe.Pointer, e uintptr) (int, error) {
-	if uintptr(p)+uintptr(4) <= e {
+// skipstr and skipType take the number of readable bytes at p instead of an end address:
+// a uintptr end address is not updated when the goroutine stack (and a buffer living on it) moves.
+func skipstr(p unsafe.Pointer, e int) (int, error) {
+	if 4 <= e {
 		n := int(p2i32(p))
 		if n < 0 {
 			return 0, errNegativeSize
 		}
-		if uintptr(p)+uintptr(4+n) <= e {
+		if 4+n <= e {
 			return 4 + n, nil
 		}
 	}
@@ -441,17 +443,15 @@ func (BinaryProtocol) Skip(b []byte, t TType) (int, error) {
 	if len(b) == 0 {
 		return 0, errBufferTooShort
 	}
-	p := unsafe.Pointer(&b[0])
-	e := uintptr(p) + uintptr(len(b))
-	return skipType(p, e, t, defaultRecursionDepth)
+	return skipType(unsafe.Pointer(&b[0]), len(b), t, defaultRecursionDepth)
 }
 
-func skipType(p unsafe.Pointer, e uintptr, t TType, maxdepth int) (int, error) {
+func skipType(p unsafe.Pointer, e int, t TType, maxdepth int) (int, error) {
 	if maxdepth == 0 {
 		return 0, errDepthLimitExceeded
 	}
 	if n := typeToSize[uint8(t)]; n > 0 {
-		if uintptr(p)+uintptr(n) > e {
+		if int(n) > e {
 			return 0, errBufferTooShort
 		}
 		return int(n), nil
@@ -461,7 +461,7 @@ func skipType(p unsafe.Pointer, e uintptr, t TType, maxdepth int) (int, error) {
 	case STRING:
 		return skipstr(p, e)
 	case MAP:
-		if uintptr(p)+uintptr(6) > e {
+		if 6 > e {
 			return 0, errBufferTooShort
 		}
 		kt, vt, sz := TType(*(*byte)(p)), TType(*(*byte)(unsafe.Add(p, 1))), p2i32(unsafe.Add(p, 2))
@@ -471,50 +471,50 @@ func skipType(p unsafe.Pointer, e uintptr, t TType, maxdepth int) (int, error) {
 		ksz, vsz := int(typeToSize[uint8(kt)]), int(typeToSize[uint8(vt)])
 		if ksz > 0 && vsz > 0 { // fast path, fast skip
 			mapkvsize := (int(sz) * (ksz + vsz))
-			if uintptr(p)+uintptr(6+mapkvsize) > e {
+			if 6+mapkvsize > e {
 				return 0, errBufferTooShort
 			}
 			return 6 + mapkvsize, nil
 		}
 		i := 6
 		for j := int32(0); j < sz; j++ {
-			if uintptr(p)+uintptr(i) >= e {
+			if i >= e {
 				return 0, errBufferTooShort
 			}
 			ki := 0
 			if ksz > 0 {
 				ki = ksz
 			} else if kt == STRING {
-				ki, err = skipstr(unsafe.Add(p, i), e)
+				ki, err = skipstr(unsafe.Add(p, i), e-i)
 			} else {
-				ki, err = skipType(unsafe.Add(p, i), e, kt, maxdepth-1)
+				ki, err = skipType(unsafe.Add(p, i), e-i, kt, maxdepth-1)
 			}
 			if err != nil {
 				return i, err
 			}
 			i += ki
-			if uintptr(p)+uintptr(i) >= e {
+			if i >= e {
 				return 0, errBufferTooShort
 			}
 			vi := 0
 			if vsz > 0 {
 				vi = vsz
 			} else if vt == STRING {
-				vi, err = skipstr(unsafe.Add(p, i), e)
+				vi, err = skipstr(unsafe.Add(p, i), e-i)
 			} else {
-				vi, err = skipType(unsafe.Add(p, i), e, vt, maxdepth-1)
+				vi, err = skipType(unsafe.Add(p, i), e-i, vt, maxdepth-1)
 			}
 			if err != nil {
 				return i, err
 			}
 			i += vi
 		}
-		if uintptr(p)+uintptr(i) > e {
+		if i > e {
 			return 0, errBufferTooShort
 		}
 		return i, nil
 	case LIST, SET:
-		if uintptr(p)+uintptr(5) > e {
+		if 5 > e {
 			return 0, errBufferTooShort
 		}
 		vt, sz := TType(*(*byte)(p)), p2i32(unsafe.Add(p, 1))
@@ -524,23 +524,23 @@ func skipType(p unsafe.Pointer, e uintptr, t TType, maxdepth int) (int, error) {
 		vsz := int(typeToSize[uint8(vt)])
 		if vsz > 0 { // fast path, fast skip
 			listvsize := int(sz) * vsz
-			if uintptr(p)+uintptr(5+listvsize) > e {
+			if 5+listvsize > e {
 				return 0, errBufferTooShort
 			}
 			return 5 + listvsize, nil
 		}
 		i := 5
 		for j := int32(0); j < sz; j++ {
-			if uintptr(p)+uintptr(i) >= e {
+			if i >= e {
 				return 0, errBufferTooShort
 			}
 			vi := 0
 			if vsz > 0 {
 				vi = vsz
 			} else if vt == STRING {
-				vi, err = skipstr(unsafe.Add(p, i), e)
+				vi, err = skipstr(unsafe.Add(p, i), e-i)
 			} else {
-				vi, err = skipType(unsafe.Add(p, i), e, vt, maxdepth-1)
+				vi, err = skipType(unsafe.Add(p, i), e-i, vt, maxdepth-1)
 			}
 			if err != nil {
 				return i, err
@@ -551,7 +551,7 @@ func skipType(p unsafe.Pointer, e uintptr, t TType, maxdepth int) (int, error) {
 	case STRUCT:
 		i := 0
 		for {
-			if uintptr(p)+uintptr(i) >= e {
+			if i >= e {
 				return i, errBufferTooShort
 			}
 			ft := TType(*(*byte)(unsafe.Add(p, i)))
@@ -560,16 +560,16 @@ func skipType(p unsafe.Pointer, e uintptr, t TType, maxdepth int) (int, error) {
 				return i, nil
 			}
 			i += 2 // Field ID
-			if uintptr(p)+uintptr(i) >= e {
+			if i >= e {
 				return i, errBufferTooShort
 			}
 			fi := 0
 			if typeToSize[uint8(ft)] > 0 {
 				fi = int(typeToSize[uint8(ft)])
 			} else if ft == STRING {
-				fi, err = skipstr(unsafe.Add(p, i), e)
+				fi, err = skipstr(unsafe.Add(p, i), e-i)
 			} else {
-				fi, err = skipType(unsafe.Add(p, i), e, ft, maxdepth-1)
+				fi, err = skipType(unsafe.Add(p, i), e-i, ft, maxdepth-1)
 			}
 			if err != nil {
 				return i, err
